@@ -12,6 +12,7 @@ message attributes to a *scratch copy* of the flow.  If every entry applies, the
 up in exactly the scratch copy's state ("applies completely").  If any entry is unknown or raises, the edit is invalid
 and the real flow's state (including its backup) must be identical to the state before the request.
 """
+import copy
 import json
 
 from hypothesis import strategies as st
@@ -22,7 +23,8 @@ from runner import HarnessError
 PID = "C47"
 LEVEL = "exploration"
 TECHNIQUE = "Hypothesis edit-document generation vs. transactional reference model (all-or-nothing application to a scratch copy)"
-RULE = ("edit documents as ordered entry lists over request/response/top-level keys with valid and invalid values at every "
+RULE = ("histories of 1-4 requests on one flow (PUT edits, occasional revert; entries may put a field back to its pristine value); "
+        "each edit: documents as ordered entry lists over request/response/top-level keys with valid and invalid values at every "
         "position, crossed with flow kinds (http, no response, pre-existing backup, websocket, trailers, tcp, dns) and body "
         "forms (json, wrong content type, malformed json); non-trivial = invalid document whose earlier entries already "
         "changed the scratch copy when the invalid entry was reached, or a flow with a pre-existing backup; distinct by "
@@ -34,7 +36,7 @@ ASSUMPTIONS = [
 ]
 LEVEL_TEXT = "Random exploration of edit documents against a transactional reference model; the real server and flow objects are used."
 LEVEL_NOTE = "message attribute setters, flow.get_state() as the observation of 'the flow', loopback transport"
-QUICK_N = 16_000
+QUICK_N = 8_000   # histories of 1-4 requests (about 2.3 PUTs each)
 THOROUGH_N = 400_000
 
 REQ_STR = ("method", "scheme", "host", "path", "http_version")
@@ -105,11 +107,44 @@ def _entry(section):
 _entries = st.lists(st.one_of(_entry("request"), _entry("request"), _entry("response"), _entry("top")), min_size=1, max_size=7)
 
 
+# an entry whose value is "what this field was on the pristine flow" (users put fields back by hand); resolved at run time
+_ORIG = {"$orig": 1}
+_orig_entry = st.sampled_from(
+    [["request", k, _ORIG] for k in ("method", "path", "port", "host", "scheme", "http_version", "headers", "content")] * 2
+    + [["response", k, _ORIG] for k in ("code", "reason", "http_version", "headers", "content")] * 2
+    + [["top", "comment", _ORIG], ["top", "marked", _ORIG]] * 6)
+_RESTORE_ALL = ([["top", "comment", _ORIG], ["top", "marked", _ORIG]]
+                + [["request", k, _ORIG] for k in ("method", "scheme", "host", "port", "path", "http_version", "headers", "content")]
+                + [["response", k, _ORIG] for k in ("code", "reason", "http_version", "headers", "content")])
+_INVALID_TAIL = st.sampled_from([["top", "foo", 1], ["request", "port", "x"], ["response", "code", "x"], ["request", "headers", [["a"]]],
+                                 ["request", "Method", 1], ["top", "request", 5], ["response", "headers", 5], ["top", "", None]])
+
+
+def _put_step(i):
+    # i: 0-5 generic edit, 6-7 small edit of few plain fields, 8-9 edit made of restoring entries (+ maybe an invalid tail)
+    form = st.sampled_from(["json"] * 24 + ["no-ctype", "malformed", "not-object"])
+    if i <= 5:
+        ent = st.lists(st.one_of(_entry("request"), _entry("response"), _entry("top"), _orig_entry), min_size=1, max_size=7)
+    elif i <= 7:
+        ent = st.lists(st.one_of(_entry("top"), st.tuples(st.just("request"), st.sampled_from(["method", "path"]), _valid_str),
+                                 st.tuples(st.just("response"), st.just("code"), st.integers(100, 599))), min_size=1, max_size=3)
+    elif i == 8:
+        ent = st.tuples(st.lists(_orig_entry, min_size=1, max_size=4), st.lists(_INVALID_TAIL, max_size=1)).map(lambda t: t[0] + t[1])
+    else:
+        # "undo everything by hand": every editable field back to its pristine value (optionally without headers/body), then maybe
+        # one invalid entry
+        ent = st.tuples(st.booleans(), st.lists(_INVALID_TAIL, max_size=1)).map(
+            lambda t: [e for e in _RESTORE_ALL if t[0] or e[1] not in ("headers", "content")] + t[1])
+    return st.fixed_dictionaries({"op": st.just("put"), "entries": ent, "form": form})
+
+
+_step = st.integers(0, 10).flatmap(lambda i: st.just({"op": "revert"}) if i == 10 else _put_step(i))
+
+
 def strategy(ctx):
     return st.fixed_dictionaries({
         "kind": st.sampled_from(KINDS),
-        "entries": _entries,
-        "form": st.sampled_from(["json"] * 24 + ["no-ctype", "malformed", "not-object"]),
+        "steps": st.lists(_step, min_size=1, max_size=4),
     })
 
 
@@ -145,9 +180,31 @@ def make_flow(kind):
     return f
 
 
-def build_doc(entries, dns):
+def _orig_value(pristine, sec, key):
+    """JSON value of (sec, key) on the pristine flow, or None if it has no such field"""
+    try:
+        if sec == "top":
+            return getattr(pristine, key)
+        msg = getattr(pristine, sec, None)
+        if msg is None or pristine.type != "http":
+            return None
+        if key in ("headers", "trailers"):
+            h = getattr(msg, key)
+            return [[k, v] for k, v in h.items(multi=True)] if h is not None else []
+        if key == "content":
+            return msg.get_text(strict=False)
+        if key == "code":
+            return msg.status_code
+        return getattr(msg, key)
+    except Exception:
+        return None
+
+
+def build_doc(entries, dns, pristine=None):
     doc = {}
     for sec, key, val in entries:
+        if val == _ORIG:
+            val = _orig_value(pristine, sec, key) if pristine is not None else None
         if sec == "top":
             if dns and key in ("request", "response"):
                 continue
@@ -277,9 +334,33 @@ _XSRF = "0123456789abcdef0123456789abcdef"
 
 def check_case(case, ctx):
     env = webharness.env()
-    kind, form = case["kind"], case["form"]
+    kind = case["kind"]
+    steps = case.get("steps")
+    if steps is None:   # single-edit cases recorded before histories were introduced (witnesses / regressions)
+        steps = [{"op": "put", "entries": case["entries"], "form": case["form"]}]
     f = make_flow(kind)
-    doc = build_doc(case["entries"], kind == "dns")
+    pristine = make_flow("http" if kind.startswith("http-backup") else kind)
+    env.view.clear()
+    env.view.add([f])
+    hdr = [("Cookie", "%s=%s; %s=%s" % (env.auth_cookie_name, env.valid_auth_cookie(), env.xsrf_cookie_name, _XSRF)), ("X-XSRFToken", _XSRF)]
+    hist = {"valid_edits": 0}
+    try:
+        for i, step in enumerate(steps):
+            if step["op"] == "revert":
+                r = env.request("POST", "/flows/a1/revert", hdr, b"")
+                if r.status == 403:
+                    raise HarnessError("harness credentials refused: %r" % (r,))
+                ctx.cls("step:revert")
+                continue
+            if not _one_edit(env, f, pristine, kind, step["entries"], step["form"], ctx, i, hist, len(steps)):
+                break
+    finally:
+        env.view.clear()
+
+
+def _one_edit(env, f, pristine, kind, entries, form, ctx, idx, hist, nsteps):
+    """one PUT on the flow as it is now; returns False if the history cannot be continued"""
+    doc = build_doc(entries, kind == "dns", pristine)
     try:
         body = json.dumps(doc).encode()
     except (TypeError, ValueError) as e:
@@ -293,10 +374,13 @@ def check_case(case, ctx):
     elif form == "not-object":
         body, form_invalid = json.dumps([doc]).encode(), True
 
-    env.view.clear()
-    env.view.add([f])
-    before = _state(f)
-    scratch = type(f).from_state(_state(f))
+    try:
+        before = _state(f)
+        scratch = type(f).from_state(_state(f))
+    except Exception:
+        # an earlier, leniently accepted edit (e.g. a null header value) left a flow that cannot be copied: stop this history
+        ctx.cls("history-stopped:flow-state-not-copyable")
+        return False
     lenient_state = None
     if form_invalid:
         valid, changed_before_failure = False, False
@@ -321,17 +405,16 @@ def check_case(case, ctx):
     got = env.view.get_by_id("a1")
     if got is not f:
         ctx.fail("flow-replaced:%s" % kind, "flow object in the view changed: %r" % (got,))
-        return
+        return False
     try:
         after = _state(f)
     except Exception as e:
         ctx.fail("state-unreadable-after-edit:%s" % type(e).__name__, "status=%d doc=%s" % (resp.status, body[:300]))
-        env.view.clear()
-        return
-    env.view.clear()
+        return False
     had_backup = before.get("backup") is not None
     fk = "backup" if had_backup else "nobackup"
-    desc = "kind=%s status=%d doc=%s" % (kind, resp.status, body[:400].decode("latin-1"))
+    later = hist["valid_edits"] > 0      # the flow was already edited through this API earlier in the history
+    desc = "kind=%s step=%d/%d (earlier valid edits: %d) status=%d doc=%s" % (kind, idx + 1, nsteps, hist["valid_edits"], resp.status, body[:400].decode("latin-1"))
 
     if valid:
         ctx.cls("valid:%s" % kind)
@@ -345,23 +428,28 @@ def check_case(case, ctx):
         elif act != exp:
             diff = _diff(exp, act)
             ctx.fail("valid-edit-not-applied-completely:%s" % diff[0], desc + " differs at %s" % (diff,))
-        return
+        elif after != before:
+            hist["valid_edits"] += 1
+        return True
 
     # invalid edit: the flow must be exactly as it was
     if changed_before_failure or had_backup:
-        ctx.nt((kind, form, body), "invalid:%s:%s" % ("after-change" if changed_before_failure else "first", fk))
+        ctx.nt((kind, form, body, idx, hist["valid_edits"]), "invalid:%s:%s%s" % ("after-change" if changed_before_failure else "first", fk, ":later-in-history" if later else ""))
     else:
         ctx.cls("invalid:first:nobackup")
+    if had_backup and not form_invalid and not _eq_backup({k: v for k, v in before.items() if k != "backup"}, before["backup"]) \
+            and _valid_prefix_restores_backup(f, doc, before):
+        ctx.nt(("restore", kind, body, idx), "invalid:valid-prefix-puts-flow-back-to-its-backup")
     if after == before:
         if resp.status < 400:
             ctx.cls("invalid-but-2xx-unchanged")
-        return
+        return True
     if lenient_state is not None:
         act = dict(after)
         act.pop("backup", None)
         if act == lenient_state:
             ctx.cls("leniently-valid-applied-completely:%d" % resp.status)
-            return
+            return True
     b2, a2 = dict(before), dict(after)
     bb, ab = b2.pop("backup", None), a2.pop("backup", None)
     if resp.status == 500:
@@ -374,6 +462,23 @@ def check_case(case, ctx):
         ctx.fail("failed-edit-reverts-earlier-edits:%d" % resp.status, desc + " differs at %s" % (_diff(b2, a2),))
     else:
         ctx.fail("failed-edit-changed-flow:%d:%s" % (resp.status, fk), desc + " differs at %s" % (_diff(b2, a2),))
+    return True
+
+
+def _valid_prefix_restores_backup(f, doc, before):
+    """evidence only: did the part of the document that applies before the invalid entry make the flow equal to its backup?"""
+    bk = before.get("backup")
+    if not bk:
+        return False
+    try:
+        sc = type(f).from_state(copy.deepcopy(before))
+        model_apply(sc, doc, before)
+        st_ = _state(sc, backup=False)
+        b = dict(bk)
+        b.pop("backup", None)
+        return st_ == b
+    except Exception:
+        return False
 
 
 def _eq_backup(state_wo_backup, backup):
